@@ -249,6 +249,16 @@ class C09(Check):
         self.kind = kind
         self.autostart_reacquires = self._autostart_reacquires(kind, graph)
         common.write_if_changed(common.GEN / "Gen_C09.v", gen_file_text(kind, graph, problems))
+        # the methods of Telomere as Gallina functions (coq/C09/GenOk.v proves them equal to the model's step); fail closed
+        from translators import c09_gen
+        try:
+            txt = c09_gen.emit(common.REPO / SRC)
+        except Exception as e:
+            common.write_if_changed(common.GEN / "Gen_C09_impl.v",
+                                    "(* translators/c09_gen.py could not translate the current source: "
+                                    + str(e).replace("*)", "* )") + " *)\nDefinition translation_failed : True := I I.\n")
+            raise
+        common.write_if_changed(common.GEN / "Gen_C09_impl.v", txt)
         self.extra_cov["lock_kind"] = kind
         self.extra_cov["lock_graph_methods"] = len(graph)
         self.extra_cov["lock_methods_acquiring"] = sorted(m for (m, a, _c) in graph if a)
